@@ -51,8 +51,19 @@ func c06Scenario(c c06Case, keep **advWorld) *vsched.Scenario {
 			x.Spawn("driver", func() {
 				defer a.done()
 				var at time.Duration
-				for _, e := range c.Events {
-					vsched.Sleep(e.Gap)
+				for i, e := range c.Events {
+					if i == 0 {
+						if e.Gap > time.Millisecond {
+							vsched.Sleep(e.Gap - time.Millisecond)
+							vsched.Mark()
+							vsched.Sleep(time.Millisecond)
+						} else {
+							vsched.Mark()
+							vsched.Sleep(e.Gap)
+						}
+					} else {
+						vsched.Sleep(e.Gap)
+					}
 					at += e.Gap
 					switch {
 					case e.Reinit:
@@ -285,4 +296,43 @@ func TestVerifC06(t *testing.T) {
 		return true
 	})
 	r.Max("max_depth", int64(K))
+
+	// Thorough tier: for every history of up to 2 events also every goroutine schedule
+	// with one deviation from the canonical one (orders of a tick, a solicitation and
+	// a worker falling on the same virtual instant).
+	if r.Thorough() && os.Getenv("VERIF_DEPTH") == "" {
+		idx = 0
+		nsched := int64(0)
+		enum.Sequences(n, 2, func(seq []int) bool {
+			idx++
+			if !r.Mine(idx) || len(seq) == 0 {
+				return true
+			}
+			var c c06Case
+			for _, s := range seq {
+				if s >= len(c06Gaps)*2 {
+					c.Events = append(c.Events, c06Event{Reinit: true, Gap: reinitGaps[s-len(c06Gaps)*2]})
+					continue
+				}
+				c.Events = append(c.Events, c06Event{Multicast: s%2 == 0, Gap: c06Gaps[s/2]})
+			}
+			var a *advWorld
+			sc := c06Scenario(c, &a)
+			sc.Check = func(x *vsched.Exec) [][2]string { return c06Check(c, x, a) }
+			st := vsched.Explore(t, sc, vsched.Options{Bound: 1, OnExec: func(x *vsched.Exec, viol [][2]string) {
+				nsched++
+				r.Case(c.String()+fmt.Sprint(x.Choices()), true)
+				for _, v := range viol {
+					cc := c
+					cc.Choices = x.Choices()
+					r.Violation(v[0], "history "+c.String()+" schedule "+fmt.Sprint(x.Choices())+": "+v[1], cc)
+				}
+			}})
+			r.Count("states", st.States)
+			r.Count("transitions", st.Transitions)
+			r.Count("traces_validated_against_impl", st.Executions)
+			return !r.OverBudget()
+		})
+		r.Count("schedules_explored_for_short_histories", nsched)
+	}
 }
